@@ -151,6 +151,21 @@ class Ctx:
         self.floors = {}
         self.notes = []
         self.selftest = None
+        self._filter = None
+
+    def only(self, pred):
+        """context manager: register only instances whose key satisfies pred (used when a shared rule
+        function contributes a subset of its instances to another property)"""
+        ctx = self
+
+        class _F:
+            def __enter__(self_inner):
+                self_inner.old = ctx._filter
+                ctx._filter = pred
+
+            def __exit__(self_inner, *a):
+                ctx._filter = self_inner.old
+        return _F()
 
     def rel(self, sp):
         if not sp:
@@ -158,9 +173,13 @@ class Ctx:
         return sp
 
     def ok(self, rule, key, site="", detail=""):
+        if self._filter is not None and not self._filter(key):
+            return
         self.instances.append({"rule": rule, "key": key, "site": self.rel(site), "ok": True, "detail": str(detail)[:600]})
 
     def bad(self, rule, key, site="", detail=""):
+        if self._filter is not None and not self._filter(key) and not key.startswith("missing-anchor"):
+            return
         self.instances.append({"rule": rule, "key": key, "site": self.rel(site), "ok": False, "detail": str(detail)[:1500]})
 
     def expect(self, cond, rule, key, site="", ok_detail="", bad_detail=""):
@@ -171,6 +190,8 @@ class Ctx:
         return bool(cond)
 
     def count(self, name, n, floor=None):
+        if self._filter is not None:
+            return
         self.counts[name] = n
         if floor is not None:
             self.floors[name] = floor
@@ -226,10 +247,10 @@ def finish(ctx, meta, t0, seed):
     passed = sum(1 for i in ctx.instances if i["ok"])
     distinct = len({(i["rule"], i["key"]) for i in ctx.instances if i["site"] not in ("", "?") or i["ok"]})
     samples = []
-    seen_rules = set()
+    seen_rules = {}
     for i in ctx.instances:
-        if i["rule"] not in seen_rules or not i["ok"]:
-            seen_rules.add(i["rule"])
+        if seen_rules.get(i["rule"], 0) < 4 or not i["ok"]:
+            seen_rules[i["rule"]] = seen_rules.get(i["rule"], 0) + 1
             samples.append({"rule": i["rule"], "instance": i["key"], "site": i["site"], "verdict": "held" if i["ok"] else "VIOLATED", "detail": i["detail"][:300]})
     ev = {
         "property_id": ctx.prop,
